@@ -321,3 +321,47 @@ def check_number_no_arith(ctx, rep):
         else:
             rep.ok("T-NUMFMT", key, b.where(), "no float arithmetic; values come from str::parse::<f64>")
     return n
+
+
+def check_lookahead_on_demand(ctx, rep):
+    """the end of the input right after a complete token is not an error: in the number / date / time dispatcher a look-ahead whose
+    failure is propagated with `?` (end of input included) happens only after the byte already seen has ruled a plain number out
+    (`-` after four digits, `-` in front). A look-ahead propagated without such a byte test makes `1234m` at the end of the input
+    an error although it is a complete Number"""
+    from rules import guards as G
+    from vlib import mir
+    from vlib.mir import strip_generics
+
+    prog = ctx.prog
+    b = prog.get("haystack::encoding::zinc::decode::lexer::parse_number_date_time")
+    if b is None:
+        rep.gap("parse_number_date_time", "-", "not found")
+        return 0
+    peeks = {x.id for x in prog.bodies.values() if strip_generics(x.id).endswith("scanner::Scanner::peek")}
+    n = 0
+    seen = {}
+    for bi, t in b.calls():
+        nm = mir.callee_name(t)
+        cb = prog.bodies.get(nm)
+        if cb is None:
+            continue
+        last = strip_generics(nm).split("::")[-1]
+        if last.startswith("parse_"):
+            continue  # committed to a token kind: from here on the end of the input is that reader's business
+        reach, _ = prog.reachable_from([nm])
+        if not (nm in peeks or any(p in reach for p in peeks)):
+            continue
+        dl = t["dest"]["l"]
+        propagated = any(strip_generics(mir.callee_name(t2) or "").endswith("Try>::branch") and mir.op_place(t2["args"][0]) is not None and mir.op_place(t2["args"][0])["l"] == dl for _b2, t2 in b.calls())
+        if not propagated:
+            continue
+        n += 1
+        i = seen.get(last, 0)
+        seen[last] = i + 1
+        key = "lookahead-on-demand:%s#%d" % (last, i)
+        byte_tests = [g for g in G.guards_at(b, bi) if g.op == "Eq" and g.a is not None and g.b is not None and re.fullmatch(r"_1\*\.(cur|last_peek)", repr(g.a)) and g.b.kind == "const"]
+        if byte_tests:
+            rep.ok("T-LOOKAHEAD", key, b.where(bi), "propagated look-ahead only after %s == %s" % (repr(byte_tests[0].a), repr(byte_tests[0].b)))
+        else:
+            rep.bad("T-LOOKAHEAD", "T-LOOKAHEAD:" + key, b.where(bi), "the failure of %s (end of input included) is propagated with `?` although no byte seen so far rules a plain Number out: a complete Number at the end of the input is reported as an error" % last)
+    return n
